@@ -653,6 +653,26 @@ impl Scenario for C03TokenSoups {
             text.push_str("/begin IF_DATA ");
         }
         for _ in 0..n {
+            if cx.tape.chance(1, 64) {
+                // very long tokens: digit strings, identifiers, strings beyond 16-bit lengths
+                let (c, len) = *cx.tape.pick(&[('9', 400usize), ('9', 5_000), ('a', 1_025), ('a', 70_000), ('s', 256), ('s', 70_000)]);
+                let body: String = std::iter::repeat_n(c, len).collect();
+                match c {
+                    '9' => {
+                        text.push_str(cx.tape.pick_str(&["", "-", "0x", "1e", "0."]));
+                        text.push_str(&body);
+                    }
+                    'a' => text.push_str(&body),
+                    _ => {
+                        text.push('"');
+                        text.push_str(&body);
+                        text.push('"');
+                    }
+                }
+                text.push(' ');
+                cx.probe("soup-with-a-very-long-token");
+                continue;
+            }
             text.push_str(if use_hot { cx.tape.pick_str(&hot) } else { cx.tape.pick_str(&alphabet) });
             if cx.tape.chance(sep16, 16) {
                 text.push(' ');
